@@ -388,6 +388,9 @@ class Translator:
             out.append("deriving DecidableEq, Repr, Inhabited")
             out.append(f"def {en}.value : {en} → String")
             out += [f"  | .{m} => \"{v}\"" for m, v in ms]
+            out.append(f"def {en}.ofValue? : String → Option {en}")
+            out += [f"  | \"{v}\" => some .{m}" for m, v in ms]
+            out.append("  | _ => none")
             out.append("")
         out.append("/-- one field per `GState.__slots__` entry -/")
         out.append("structure GState where")
